@@ -81,9 +81,26 @@ func (c *Ctx) c03Merges(n int) {
 					}
 				}
 			}
+			// ranges merged and not unmerged since: each must lie inside a reported range
+			var live [][4]int
+			covered := func(where string, rs [][4]int) {
+				for _, l := range live {
+					in := false
+					for _, r := range rs {
+						if r[0] <= l[0] && r[1] <= l[1] && l[2] <= r[2] && l[3] <= r[3] {
+							in = true
+						}
+					}
+					if !in {
+						c.Fail("oracle", "C03_merges_cover", ops, fmt.Sprintf("%s: merged range %v lies inside none of the reported ranges %v", where, l, rs), "")
+						return
+					}
+				}
+			}
 			for _, o := range ops {
 				switch o.Op {
 				case "M":
+					live = append(live, o.R)
 					for _, s := range sofar {
 						if rectsOverlap(s, o.R) {
 							overl = true
@@ -104,6 +121,9 @@ func (c *Ctx) c03Merges(n int) {
 						c.Fail("oracle", "C03_merges_disjoint", ops, "UnmergeCell rejected a valid range: "+err.Error(), "")
 					}
 					toks = append(toks, fmt.Sprintf("U,%d,%d,%d,%d", o.R[0], o.R[1], o.R[2], o.R[3]))
+					// what is left after an unmerge is what stays merged (reading it does not change the state:
+					// UnmergeCell has already joined the ranges, C03_norm_fixed)
+					_, live, _ = c03Reported(f)
 				case "G":
 					s, rs, err := c03Reported(f)
 					if err != nil {
@@ -111,6 +131,7 @@ func (c *Ctx) c03Merges(n int) {
 						return
 					}
 					disjoint("GetMergeCells mid-history", rs)
+					covered("GetMergeCells mid-history", rs)
 					outs = append(outs, s)
 					toks = append(toks, "G")
 				}
@@ -127,6 +148,7 @@ func (c *Ctx) c03Merges(n int) {
 				return
 			}
 			disjoint("GetMergeCells", rs)
+			covered("GetMergeCells", rs)
 			outs = append(outs, s)
 			if g, err := excelize.OpenReader(bytes.NewReader(buf.Bytes())); err == nil {
 				s2, rs2, _ := c03Reported(g)
